@@ -173,7 +173,7 @@ def host_faithful(
 LOADS = [0, 1, 11, 12, 22, 23, 50, 99, 100]
 
 
-def net_faithful(li: int, rule_present: bool, permit: bool, ipi: int, pti: int, pri: int, slot: int, router_on: bool, port_en: bool, n_in1: int, n_in2: int, part: str = "acl"):
+def net_faithful(li: int, rule_present: bool, permit: bool, ipi: int, pti: int, pri: int, slot: int, router_on: bool, port_en: bool, n_in1: int, n_in2: int, swi: int, dwi: int, part: str = "acl"):
     """Router ACL slots + router ports (part 'acl'), link load band (part 'link'), NMNE last-step memory (part 'nmne')."""
     from primaite.simulator.network.hardware.node_operating_state import NodeOperatingState as NS
     from primaite.simulator.network.hardware.nodes.network.router import ACLAction
@@ -189,8 +189,9 @@ def net_faithful(li: int, rule_present: bool, permit: bool, ipi: int, pti: int, 
     ports = [None, 80, 53]
     protos = [None, "icmp", "tcp", "udp"]
     assume(all_of(rng(li, 0, len(LOADS) - 1), rng(ipi, 0, 2), rng(pti, 0, 2), rng(pri, 0, 3), rng(slot, 0, 3), n_in1 >= 0, n_in2 >= n_in1))
+    assume(all_of(rng(swi, 0, 2), rng(dwi, 0, 2)))
     if part != "acl":
-        assume(all_of(ipi == 0, pti == 0, pri == 0, slot == 0, permit, port_en))
+        assume(all_of(ipi == 0, pti == 0, pri == 0, slot == 0, permit, port_en, swi == 0, dwi == 0))
     if part != "link":
         assume(li == 0)
     if part != "nmne":
@@ -198,11 +199,13 @@ def net_faithful(li: int, rule_present: bool, permit: bool, ipi: int, pti: int, 
     load = pick(LOADS, li)
     sl = pick_int(slot, 0, 3)
     ip, pt, pr = pick(ips, ipi), pick(ports, pti), pick(protos, pri)
+    wcs = [None, "0.0.0.1", "0.0.0.255"]
+    sw, dw = pick(wcs, swi), pick(wcs, dwi)
     with concrete():
         for i in range(len(router.acl._acl)):
             router.acl._acl[i] = None
         if rule_present:
-            router.acl.add_rule(action=ACLAction.PERMIT if permit else ACLAction.DENY, protocol=pr, src_ip_address=ip, dst_ip_address=None, src_port=pt, dst_port=pt, position=sl)
+            router.acl.add_rule(action=ACLAction.PERMIT if permit else ACLAction.DENY, protocol=pr, src_ip_address=ip, dst_ip_address=None, src_wildcard_mask=sw, dst_wildcard_mask=dw, src_port=pt, dst_port=pt, position=sl)
         # link 0 of the observation: router_1:eth-1<->switch_1:eth-4
         link = None
         for l in sim.network.links.values():
@@ -242,6 +245,8 @@ def net_faithful(li: int, rule_present: bool, permit: bool, ipi: int, pti: int, 
                 check(e["permission"] == (1 if permit else 2), "ACL permission differs from the rule's action")
                 check(e["source_ip_id"] == (1 if ip is None else 2 + ["192.168.1.2", "192.168.1.3"].index(ip)), "ACL source_ip_id differs")
                 check(e["dest_ip_id"] == 1, "ACL dest_ip_id of an any-destination rule is not 1")
+                check(e["source_wildcard_id"] == (1 if sw is None else 2 + wcs[1:].index(sw)), "ACL source_wildcard_id differs from the rule's source wildcard mask")
+                check(e["dest_wildcard_id"] == (1 if dw is None else 2 + wcs[1:].index(dw)), "ACL dest_wildcard_id differs from the rule's destination wildcard mask")
                 check(e["source_port_id"] == (1 if pt is None else 2 + [80, 53].index(pt)), "ACL source_port_id differs")
                 check(e["dest_port_id"] == e["source_port_id"], "ACL dest_port_id differs")
                 check(e["protocol_id"] == (1 if pr is None else 2 + ["icmp", "tcp", "udp"].index(pr)), "ACL protocol_id differs")
@@ -295,7 +300,7 @@ HARNESSES = {
     },
     "net_faithful": {
         "fn": net_faithful,
-        "quick": [{"fixed": {"router_on": True, "rule_present": True, "part": "acl", "permit": p}, "timeout": 280} for p in (True, False)]
+        "quick": [{"fixed": {"router_on": True, "rule_present": True, "part": "acl", "permit": p, "slot": sl}, "timeout": 280} for p in (True, False) for sl in (0, 3)]
         + [{"fixed": {"router_on": ro, "rule_present": rp, "part": pt}, "timeout": 200} for (ro, rp, pt) in ((True, False, "acl"), (False, True, "acl"), (True, True, "link"), (True, False, "nmne"))],
         "thorough": [{"fixed": {"router_on": ro, "rule_present": rp, "part": pt}, "timeout": 1200} for ro in (True, False) for rp in (True, False) for pt in ("acl", "link", "nmne")],
         "cover": ["router_on", "router_off"],
